@@ -787,9 +787,16 @@ func (*c03Prop) Run(cc Case) Verdict {
 		// causal test for the open RightTrim finding: hand RightTrim clones of its
 		// operand's result; if the divergence disappears it is that finding.
 		v2 := Verdict{Probes: map[string]int64{}, Faults: map[string]int64{}}
-		if cl, _ := c03Judge(c, true, &v2); cl == "" {
+		if cl, dt := c03Judge(c, true, &v2); cl == "" {
 			v.Known = c03Known
 			v.Probes["known_rtrim_divergences"]++
+		} else if cl == "discard" {
+			// the causal test itself ran out of budget (with clones instead of in-place moves
+			// an ambiguous grammar can explore far more paths): the case is inconclusive like
+			// any other case that exceeds a budget, it is not evidence of a second defect
+			v.Violation, v.Class, v.Detail = false, "", ""
+			v.Discard = "rtrim-causal-test:" + dt
+			v.Nontrivial = false
 		}
 	}
 	return v
